@@ -538,12 +538,92 @@ func TestLayeredGraphs(t *testing.T) {
 	run.SkipIfReplaying(t)
 	defer run.Done(t, chkLayered)
 	rapid.Check(t, func(t *rapid.T) {
-		form := rapid.SampledFrom([]string{"key-shortcut-alternatives", "key-shortcut-or-rule", "object-properties", "object-properties-optional", "scalar-alternatives", "array-items"}).Draw(t, "form")
+		form := rapid.SampledFrom([]string{"key-shortcut-alternatives", "key-shortcut-or-rule", "object-properties", "object-properties-optional", "scalar-alternatives", "array-items", "ladder-with-back-edges", "dag-above-a-legal-cycle", "arrays-with-min-items-0"}).Draw(t, "form")
 		n := rapid.IntRange(30, 44).Draw(t, "levels")
 		know := rapid.Bool().Draw(t, "typesKnowTypes")
 		sp := lib.Spec{TypesKnowTypes: know}
 		name := func(p string, i int) string { return fmt.Sprintf("@%s%d", p, i) }
 		doc := "1"
+		switch form {
+		case "ladder-with-back-edges", "dag-above-a-legal-cycle":
+			// accepted graphs WITH cycles: every cycle runs through an alternative whose siblings
+			// terminate, so nothing is infinite - and the number of types is 2n+1, the number of
+			// paths 2^n. Only Check is asked (what the example of such a graph looks like is the
+			// cut-off's business).
+			back := rapid.SampledFrom([]string{"first", "last", "middle"}).Draw(t, "backEdgeAt")
+			alts := func(a, b, z string) string {
+				switch back {
+				case "first":
+					return z + " | " + a + " | " + b
+				case "middle":
+					return a + " | " + z + " | " + b
+				}
+				return a + " | " + b + " | " + z
+			}
+			if form == "ladder-with-back-edges" {
+				for i := 0; i < n; i++ {
+					sp.Types = append(sp.Types, lib.Named{Name: name("t", i), Text: fmt.Sprintf("{\n  \"p\": %s\n}", alts(name("t", i+1), name("s", i), "@t0"))})
+					sp.Types = append(sp.Types, lib.Named{Name: name("s", i), Text: fmt.Sprintf("{\n  \"x\": %s\n}", name("t", i+1))})
+				}
+				sp.Types = append(sp.Types, lib.Named{Name: name("t", n), Text: "1"})
+				sp.Schema = "@t0"
+			} else {
+				for i := 0; i < n; i++ {
+					for _, p := range []string{"l", "m"} {
+						text := name("l", i+1) + " | " + name("m", i+1)
+						if i == n-2 {
+							text = alts(name("l", i+1), name("m", i+1), "@l0")
+						}
+						if i == n-1 {
+							text = `"x"`
+						}
+						sp.Types = append(sp.Types, lib.Named{Name: name(p, i), Text: text})
+					}
+				}
+				sp.Schema = "{\n  \"k\": @l0\n}"
+			}
+			c := LayeredCase{Spec: sp, Doc: doc, Form: form}
+			s, add := lib.Build(sp)
+			if add.Panic != "" || !add.OK {
+				run.Fail(t, chkLayered, c, "AddType: %v", add)
+			}
+			var cr lib.Res
+			if msg := timed("Check", 20*time.Second, func() { cr = lib.Check(s) }); msg != "" {
+				run.FailAndExit(chkLayered, c, "%s (a graph of %d small types, each cycle of which has a terminating alternative)", msg, len(sp.Types))
+			}
+			if !cr.OK {
+				run.Fail(t, chkLayered, c, "Check refuses a graph whose types are all defined and whose cycles all run through alternatives with a terminating sibling: %v", cr)
+			}
+			run.Eval(chkLayered, true, form, fmt.Sprint(n), fmt.Sprint(know), back)
+			run.Label("layered:" + form)
+			if know {
+				run.Label("layered:types-know-types")
+			}
+			return
+		case "arrays-with-min-items-0":
+			// k types, each with k properties "pj": [@tj] whose array says minItems: 0 (or has a
+			// maxItems, or no rule): `{"p0": [], ...}` is a document of every one of them, Check accepts
+			// the graph, and the example has to come back
+			k := rapid.IntRange(5, 7).Draw(t, "mutualTypes")
+			rule := rapid.SampledFrom([]string{" // {minItems: 0}", " // {minItems: 0, maxItems: 10}", "", " // {maxItems: 3}"}).Draw(t, "arrayRule")
+			for i := 0; i < k; i++ {
+				text := "{"
+				for j := 0; j < k; j++ {
+					if j > 0 {
+						text += ","
+					}
+					text += fmt.Sprintf("\n  \"p%d\": [%s\n    %s\n  ]", j, rule, name("t", j))
+				}
+				sp.Types = append(sp.Types, lib.Named{Name: name("t", i), Text: text + "\n}"})
+			}
+			sp.Schema = "@t0"
+			sp.TypesKnowTypes = false
+			c := LayeredCase{Spec: sp, Doc: `{"p0":[]}`, Form: form}
+			checkLayered(t, c)
+			run.Eval(chkLayered, true, form, fmt.Sprint(k), rule)
+			run.Label("layered:" + form)
+			return
+		}
 		for i := 0; i < n; i++ {
 			for _, p := range []string{"l", "m"} {
 				var text string
@@ -624,6 +704,109 @@ func TestLayeredGraphs(t *testing.T) {
 		if n == 30 {
 			run.Sample(chkLayered, map[string]any{"form": form, "levels": n, "schema": sp.Schema, "first_type": sp.Types[0]})
 		}
+	})
+}
+
+// ---------------------------------------------------------------------------------------
+// Inherited properties in cycles: a property a type inherits through allOf is as required as one
+// written in it. The same graph is built twice - with the allOf rule, and with the parent's
+// properties written out in the heir - and Check has to give the same verdict on both (types know
+// each other or not; the cycle closes through the inherited property, or the inherited property is
+// optional / an array and nothing is infinite).
+const chkHeir = "inherited-property-in-a-cycle"
+
+type HeirCase struct {
+	WithAllOf lib.Spec `json:"with_allOf"`
+	Plain     lib.Spec `json:"parent_properties_written_out"`
+}
+
+func init() {
+	run.RegisterReplay(chkHeir, func(t run.TB, raw json.RawMessage) {
+		var c HeirCase
+		if err := json.Unmarshal(raw, &c); err != nil {
+			t.Fatalf("bad case: %v", err)
+		}
+		checkHeir(t, c)
+	})
+}
+
+func checkHeir(t run.TB, c HeirCase) (accepted bool) {
+	verdict := func(sp lib.Spec) lib.Res {
+		s, add := lib.Build(sp)
+		if add.Panic != "" || !add.OK {
+			run.Fail(t, chkHeir, c, "AddType: %v", add)
+		}
+		var cr lib.Res
+		if msg := timed("Check", 20*time.Second, func() { cr = lib.Check(s) }); msg != "" {
+			run.FailAndExit(chkHeir, c, "%s", msg)
+		}
+		if cr.Panic != "" {
+			run.Fail(t, chkHeir, c, "Check panicked: %v", cr)
+		}
+		return cr
+	}
+	a, b := verdict(c.WithAllOf), verdict(c.Plain)
+	if a.OK != b.OK {
+		run.Fail(t, chkHeir, c, "with the allOf rule Check says %v, with the parent's properties written out in the heir it says %v", a, b)
+	}
+	return a.OK
+}
+
+func TestInheritedCycles(t *testing.T) {
+	run.SkipIfReplaying(t)
+	defer run.Done(t, chkHeir)
+	rapid.Check(t, func(t *rapid.T) {
+		// @a -> @b, @b inherits from @c (directly, or through @m), the inherited "z" leads back to @a
+		back := rapid.SampledFrom([]string{"@a", "@a // {optional: true}", "[@a]", "@a | @leaf", "@b"}).Draw(t, "inherited")
+		own := rapid.SampledFrom([]string{"\"y\": 1", "\"y\": @leaf", "\"y\": @leaf // {optional: true}"}).Draw(t, "own")
+		ownComma := own + ","
+		if i := strings.Index(own, " //"); i >= 0 {
+			ownComma = own[:i] + "," + own[i:] // (the comma stands in front of the annotation)
+		}
+		chain := rapid.Bool().Draw(t, "twoLevels")
+		nested := rapid.Bool().Draw(t, "heirIsNested")
+		parentProps := "\"z\": " + back
+		cText := "{\n  " + parentProps + "\n}"
+		mText := "{ // {allOf: \"@c\"}\n  \"w\": 2\n}"
+		mPlain := "{\n  \"w\": 2,\n  " + parentProps + "\n}"
+		parent, inherited := "@c", parentProps
+		if chain {
+			parent, inherited = "@m", "\"w\": 2,\n  "+parentProps
+		}
+		bAll := "{ // {allOf: \"" + parent + "\"}\n  " + own + "\n}"
+		bPlain := "{\n  " + ownComma + "\n  " + inherited + "\n}"
+		if nested {
+			// the heir is an object inside @b, not @b itself
+			bAll = "{\n  \"in\": { // {allOf: \"" + parent + "\"}\n    " + own + "\n  }\n}"
+			bPlain = "{\n  \"in\": {\n    " + ownComma + "\n    " + inherited + "\n  }\n}"
+		}
+		aText := rapid.SampledFrom([]string{"{\n  \"x\": @b\n}", "{\n  \"x\": @b,\n  \"n\": 1\n}", "{\n  \"x\": @b | @b\n}"}).Draw(t, "a")
+		root := rapid.SampledFrom([]string{"@a", "{\n  \"r\": @a\n}", "[@a]", "{\n  \"r\": @b\n}"}).Draw(t, "root")
+		know := rapid.IntRange(0, 3).Draw(t, "typesKnowTypes") != 0
+		mk := func(b, m string) lib.Spec {
+			sp := lib.Spec{Schema: root, TypesKnowTypes: know, Types: []lib.Named{{Name: "@a", Text: aText}, {Name: "@b", Text: b}, {Name: "@c", Text: cText}, {Name: "@m", Text: m}, {Name: "@leaf", Text: "1"}}}
+			if rapid.Bool().Draw(t, "order") {
+				for i, j := 0, len(sp.Types)-1; i < j; i, j = i+1, j-1 {
+					sp.Types[i], sp.Types[j] = sp.Types[j], sp.Types[i]
+				}
+			}
+			return sp
+		}
+		c := HeirCase{WithAllOf: mk(bAll, mText)}
+		c.Plain = c.WithAllOf
+		c.Plain.Types = append([]lib.Named{}, c.WithAllOf.Types...)
+		for i := range c.Plain.Types {
+			switch c.Plain.Types[i].Name {
+			case "@b":
+				c.Plain.Types[i].Text = bPlain
+			case "@m":
+				c.Plain.Types[i].Text = mPlain
+			}
+		}
+		acc := checkHeir(t, c)
+		run.Eval(chkHeir, true, fmt.Sprint(c.WithAllOf))
+		run.Label(fmt.Sprintf("heir:accepted=%v:wired=%v", acc, know))
+		run.Sample(chkHeir, c)
 	})
 }
 
